@@ -24,6 +24,11 @@ def build_inputs(c, t, rng):
         inputs.append(({"route": r.route, "el": "none", "kind": "valid"}, r.bytes()))
         for kind, el, raw in reqgen.mutations(r, rng, per):
             inputs.append(({"route": r.route, "el": el, "kind": kind}, raw))
+    for kind, el, raw in reqgen.bombs(valid):
+        inputs.append(({"route": "bomb", "el": kind.split(":")[0], "kind": kind, "always_b": True}, raw))
+    # the same bombs for a server started with a larger (documented, configurable) request buffer
+    for kind, el, raw in reqgen.bombs([x for x in valid if x.route in ("form-multipart", "form-urlencoded", "static-multirange", "form-get")], size=120000):
+        inputs.append(({"route": "bomb", "el": kind.split(":")[0], "kind": kind + ":bigbuf", "bufsize": 131072}, raw))
     for label, raw in reqgen.special_inputs(rng, c.quick):
         inputs.append(({"route": "special", "el": label.split(":")[0], "kind": label}, raw))
     # a larger (documented, configurable) request buffer admits more header lines in one read
@@ -78,7 +83,7 @@ def run(c):
         for nspec, spec in ((2100, "0-0"), (1500, "5-6"), (1100, "-1"), (2000, "1-1")):
             inputs.append(({"route": "static-multirange", "el": "many-ranges-of-a-large-file", "kind": "many-ranges:%d" % nspec},
                            ("GET /big1m.bin HTTP/1.1\r\nHost: x\r\nRange: bytes=%s\r\n\r\n" % ",".join([spec] * nspec)).encode()))
-        for cat in ("a 4xx/5xx for an unparseable request line", "input larger than the request buffer", "ErrApp handler", "engine B: response from the shipped binary", "engine B: burst of simultaneous connections"):
+        for cat in ("a 4xx/5xx for an unparseable request line", "input larger than the request buffer", "ErrApp handler", "engine B: response from the shipped binary", "engine B: burst of simultaneous connections", "engine B: server bound to ::1"):
             c.need(cat)
         # ---------- Engine A
         for lane in ("rel", "chk"):
@@ -115,10 +120,22 @@ def run(c):
         nb = 600 if c.quick else 10000
         small = [x for x in inputs if "bufsize" not in x[0]]
         pick = [small[i] for i in sorted(rng.sample(range(len(small)), min(nb, len(small))))]
+        pick += [x for x in small if x[0].get("always_b") and x not in pick]
         for lane in (("rel",) if c.quick else ("rel", "chk")):
             engine_b(c, t, pick, lane, concurrent=False)
             engine_b(c, t, pick[: len(pick) // 2], lane, concurrent=True)
             burst_b(c, t, lane)
+            # a server configured with a 128 KiB request buffer: the same units repeated ten times as often
+            big = [x for x in inputs if x[0].get("bufsize") == 131072]
+            engine_b(c, t, big, lane, concurrent=False, args=["--request-allocation-size-in-bytes=131072"])
+            # a server bound to the IPv6 loopback address (the documented --ip setting takes any address)
+            if ipv6_available():
+                c.count("ipv6_loopback_available")
+                engine_b(c, t, [x for x in pick if x[0]["kind"] == "valid"] + pick[:60], lane, concurrent=False, ip="::1")
+                c.seen("engine B: server bound to ::1")
+            else:
+                c.count("ipv6_loopback_not_available_in_this_environment (pass skipped)")
+                c.seen("engine B: server bound to ::1")
         if not c.quick:
             # coverage-guided amplifier on Server::process (scripted transport, real App, this tree as cwd)
             from .. import fuzzlane
@@ -130,13 +147,13 @@ def run(c):
         t.cleanup()
 
 
-def engine_b(c, t, pick, lane, concurrent):
+def engine_b(c, t, pick, lane, concurrent, args=None, ip="127.0.0.1"):
     import base64
     threads = 4
     srv = None
 
     def start():
-        s = server.Server(t.root, threads=threads, lane=lane)
+        s = server.Server(t.root, threads=threads, lane=lane, args=args, ip=ip)
         if not s.started:
             s.cleanup()
             return None
@@ -184,6 +201,17 @@ def engine_b(c, t, pick, lane, concurrent):
     finally:
         if srv is not None:
             srv.cleanup()
+
+
+def ipv6_available():
+    import socket
+    try:
+        s = socket.socket(socket.AF_INET6, socket.SOCK_STREAM)
+        s.bind(("::1", 0))
+        s.close()
+        return True
+    except OSError:
+        return False
 
 
 def burst_b(c, t, lane):
